@@ -281,7 +281,12 @@ class Runtime:
                 c = core.And(*([i.eq(x, y) for x, y in zip(pa, a)] + [i.eq(pk[n], k[n]) for n in k]))
                 if c is True or (c is not False and i.ctx.branch(core.lift_bool(c))):
                     return res
-            res = i.call(val, list(a), dict(k))
+            try:
+                res = i.call(val, list(a), dict(k))
+            except BaseException as _e:
+                import os as _o, sys as _s
+                _o.environ.get("PYVC_DBG") and print("DBGLRU", type(_e), _e, file=_s.stderr)
+                raise
             if isinstance(res, (_Obj, _PDict, list, dict, set)):
                 store.append((list(a), dict(k), res))
             return res
@@ -575,6 +580,8 @@ class Runtime:
                     return v.func
                 return v
             interp.raise_py("AttributeError", "%r has no attribute %r" % (obj.pycls.name, name))
+        if isinstance(obj, Builtin) and isinstance(getattr(obj, "wrapped", None), Closure):
+            obj = obj.wrapped        # attributes of an lru_cache wrapper are those of the wrapped function (functools.wraps)
         if isinstance(obj, Closure):
             if name == "__name__":
                 return obj.attrs.get("__name__", obj.name)
@@ -636,6 +643,8 @@ class Runtime:
                 self.note_write(obj, name)
             obj.fields[name] = value
             return
+        if isinstance(obj, Builtin) and isinstance(getattr(obj, "wrapped", None), Closure):
+            obj = obj.wrapped
         if isinstance(obj, Closure):
             obj.attrs[name] = value
             return
